@@ -9,6 +9,8 @@ import { Reporter, TIER, SEED, sha, mapLimit } from "./common.mjs";
 import { BIN, VERIF } from "./runtime.mjs";
 import { DEFAULT_SETTINGS } from "./compile.mjs";
 import { basePrograms, renderLayout } from "./c09.mjs";
+import { familyPrograms } from "./cases.mjs";
+import { renderProgram } from "./spec.mjs";
 
 const WORKER = path.join(BIN, "compile-worker");
 const SHIM = path.join(VERIF, "build/getrandom_shim.so");
@@ -142,7 +144,12 @@ export async function run() {
   const distinctPerProject = {};
   const seeds = TIER === "thorough" ? Array.from({ length: 48 }, (_, i) => i * 7919 + 1) : Array.from({ length: 8 }, (_, i) => (i + SEED) * 7919 + 1);
   // self-test: the shim owns the seed (same seed twice => identical; the probe program's table order varies with the seed)
-  for (const p of projects()) {
+  // the single-file programs of the type families (every construct the printer has a special case for), lazy
+  // order only, under 6 owned hash seeds (thorough: all seeds)
+  const famSeeds = TIER === "thorough" ? seeds : seeds.slice(0, 6);
+  const fam = familyPrograms({ light: true }).filter((p) => p.family !== "F1d2").map((p) => ({ name: `family ${p.family}#${p.index ?? p.note}`, files: { "entry.ts": renderProgram(p) }, family: true }));
+  stats.familyPrograms = fam.length;
+  for (const p of [...projects(), ...fam]) {
     stats.projects++;
     const fileNames = Object.keys(p.files);
     let orders = [[]]; // purely lazy
@@ -151,11 +158,12 @@ export async function run() {
     // partial pre-registration: only the dependencies, in both orders
     orders.push(fileNames.filter((f) => f !== "entry.ts"));
     orders.push(fileNames.filter((f) => f !== "entry.ts").reverse());
+    if (p.family) orders = [[]];
     const jobs = [];
     for (const order of orders) {
       stats.orders++;
       // each order under two hash seeds + unowned randomness once; the lazy order under all seeds
-      const ss = order.length === 0 ? [...seeds, null] : [seeds[0], seeds[(stats.orders % (seeds.length - 1)) + 1]];
+      const ss = p.family ? famSeeds : order.length === 0 ? [...seeds, null] : [seeds[0], seeds[(stats.orders % (seeds.length - 1)) + 1]];
       for (const hs of ss) jobs.push({ order, hs });
     }
     const results = await mapLimit(jobs, 16, async (j) => {
@@ -171,7 +179,7 @@ export async function run() {
       if (!groups.has(r.text)) groups.set(r.text, []);
       groups.get(r.text).push(r);
     }
-    distinctPerProject[p.name] = groups.size;
+    if (!p.family || groups.size > 1) distinctPerProject[p.name] = groups.size;
     if (groups.size > 1) {
       const [a, b] = [...groups.values()];
       const describe = (g) => `${g.length} run(s), e.g. pre-registration [${g[0].order.join(", ")}] hash seed ${g[0].hs}`;
@@ -189,10 +197,12 @@ export async function run() {
     coverage: {
       evaluations: stats.runs,
       distinct_nontrivial: Object.keys(distinctPerProject).length,
-      rule: "13 multi-file projects (C09 layouts in 5 import styles, 14 interdependent declarations referenced in scrambled order, several independent errors, typeof of a namespace with several unsupported exports, export-star aggregation and conflict) × pre-registration orders (" + (TIER === "thorough" ? "all n! orders of <=4 files" : "a sixth of the n! orders") + " + purely lazy + dependencies-only in both orders) × fresh OS processes × std HashMap seeds owned through an LD_PRELOAD getrandom shim (" + seeds.length + " seeds on the lazy order, 2 per other order, plus one run with the system's own randomness); oracle: all runs of one project give byte-identical code and identical serialised diagnostics (both entry points). distinct_nontrivial = number of projects",
+      // (per-project counts are listed for the multi-file projects only)
+      rule: "every single-file program of the type families F1 depth 1, F1x, F2, F3, F4 (lazy order, 6 owned hash seeds each; thorough: all seeds) and 13 multi-file projects (C09 layouts in 5 import styles, 14 interdependent declarations referenced in scrambled order, several independent errors, typeof of a namespace with several unsupported exports, export-star aggregation and conflict) × pre-registration orders (" + (TIER === "thorough" ? "all n! orders of <=4 files" : "a sixth of the n! orders") + " + purely lazy + dependencies-only in both orders) × fresh OS processes × std HashMap seeds owned through an LD_PRELOAD getrandom shim (" + seeds.length + " seeds on the lazy order, 2 per other order, plus one run with the system's own randomness); oracle: all runs of one project give byte-identical code and identical serialised diagnostics (both entry points). distinct_nontrivial = number of projects",
       samples,
       exhaustive: false,
       projects: stats.projects,
+      family_programs: stats.familyPrograms,
       runs: stats.runs,
       registration_orders: stats.orders,
       hash_seeds: seeds.length,
@@ -200,5 +210,18 @@ export async function run() {
     },
     assumptions: ["the joint space of 128-bit hash seeds is sampled (owned and replayable, not enumerable); registration orders are exhaustive in the thorough tier", "LD_PRELOAD getrandom shim feeds std's RandomState (engines/shim/getrandom.c)"],
   });
+}
+// re-runs the two recorded runs (pre-registration order + owned hash seed) in fresh processes and compares the outputs
+export async function replay(c) {
+  if (!c.files || !c.a || !c.b) return null;
+  const one = async (x) => {
+    const ops = [...(x.order || []).map((f) => ({ op: "update", file: f })), { op: "bundle" }];
+    const r = await oneShot({ files: c.files, settings: DEFAULT_SETTINGS, ops }, x.hash_seed ?? null);
+    if (r.dead || r.panic) return "CRASH:" + (r.panic ? r.panic.site : r.signal);
+    const o = r.obs.find((y) => y.op === "bundle");
+    return JSON.stringify({ code: o.code, emitted: o.emitted, diagnostics: o.diagnostics });
+  };
+  const [ta, tb] = [await one(c.a), await one(c.b)];
+  return { reproduced: ta !== tb, observed: { run_a: { order: c.a.order, hash_seed: c.a.hash_seed, output_sha: sha(ta) }, run_b: { order: c.b.order, hash_seed: c.b.hash_seed, output_sha: sha(tb) } } };
 }
 if (import.meta.url === `file://${process.argv[1]}`) run().then((c) => process.exit(c));
